@@ -5,6 +5,7 @@ Property theorems only.
 import Compress.Proofs.BitIOExact
 import Compress.Proofs.FlateRefine
 import Compress.Proofs.FlatePrefix
+import Compress.Proofs.BzImplCounters
 
 namespace Compress.Props.C11
 open Compress Compress.Prefix Compress.Proofs.PrefixTables Compress.Proofs.BitIOExact
@@ -80,5 +81,18 @@ example : (Flate.decode [0x00, 0x01, 0x00, 0xfe, 0xff, 0x41, 0x01, 0x00, 0x00, 0
     (Flate.decode ([0x00, 0x01, 0x00, 0xfe, 0xff, 0x41, 0x01, 0x00, 0x00, 0xff, 0xff].take 6)).out = #[0x41] ∧
     (Flate.decode ([0x00, 0x01, 0x00, 0xfe, 0xff, 0x41, 0x01, 0x00, 0x00, 0xff, 0xff].take 6)).verdict = .unexpectedEOF := by
   decide
+open Compress.Proofs.BzImpl in
+/-- **bzip2.Reader counters.** For every input and every Read schedule of the reader model:
+    OutputOffset after the run is exactly the number of bytes delivered, and the value published
+    after each Read is the number delivered up to and including that Read; a run that ended with
+    io.EOF has consumed the whole input (InputOffset = length of the input, nothing left). -/
+theorem C11_bzip2_counters (bytes : List UInt8) (sched : List Nat) :
+    (Bzip2.Impl.run bytes sched).final.outOff = (Bzip2.Impl.run bytes sched).delivered.length ∧
+    (∀ i, i < (Bzip2.Impl.run bytes sched).reads.length →
+      ((Bzip2.Impl.run bytes sched).reads.getD i default).outOff =
+        (((Bzip2.Impl.run bytes sched).reads.take (i + 1)).flatMap (·.out)).length) ∧
+    ((Bzip2.Impl.run bytes sched).err = some .eof →
+      (Bzip2.Impl.run bytes sched).final.inOff = bytes.length ∧ (Bzip2.Impl.run bytes sched).final.bits = []) :=
+  ⟨(run_outOff bytes sched).1, (run_outOff bytes sched).2, run_inOff_eof bytes sched⟩
 
 end Compress.Props.C11
